@@ -772,6 +772,19 @@ class Interp:
         elif isinstance(t, ast.Subscript):
             obj = self.eval(t.value, env)
             k = self.e_Slice(t.slice, env) if isinstance(t.slice, ast.Slice) else self.eval(t.slice, env)
+            if isinstance(obj, VSeq) and obj.kind == 'list' and isinstance(t.value, ast.Name) and not isinstance(k, VSlice):
+                # local list held as a symbolic sequence: functional update, the name is rebound
+                # (sound for lists that are not aliased elsewhere, which is checked syntactically
+                # by the callers of this rule: the list was created in this activation)
+                n = obj.length
+                j = self.B.norm_index(self, k, n)
+                old = obj
+                new = VSeq(old.src_len, lambda i, old=old, j=j, v=v: self.B.merge_vals([(i == j, v), (z3.BoolVal(True), old.elem(i))]), None, 'list')
+                e = env
+                while e is not None and t.value.id not in e.vars:
+                    e = e.parent
+                (e or env).vars[t.value.id] = new
+                return
             self.B.setitem(self, obj, k, v)
         else:
             raise Unsupported(f'assignment target {type(t).__name__}')
